@@ -215,8 +215,21 @@ def pyInt (s : Str) : Option Int :=
     else if c = '+' then (natLit 0 false rest).map Int.ofNat
     else (natLit 0 false (c :: rest)).map Int.ofNat
 
+def digitChar (d : Nat) : Char := Char.ofNat ('0'.toNat + d)
+
+/-- decimal digits of `n`, most significant first (`fuel` > number of digits) -/
+def natDigits : Nat → Nat → Str
+  | 0, _ => []
+  | fuel + 1, n => if n < 10 then [digitChar n] else natDigits fuel (n / 10) ++ [digitChar (n % 10)]
+
+/-- `str(n)` for a natural number -/
+def printNat (n : Nat) : Str := natDigits (n + 1) n
+
 /-- `str(i)` -/
-def printInt (i : Int) : Str := (toString i).toList
+def printInt (i : Int) : Str :=
+  match i with
+  | .ofNat n => printNat n
+  | .negSucc n => '-' :: printNat (n + 1)
 
 /-- Conservative grammar of the float texts accepted by the model: `[-]digits[.digits][e[-+]digits]`,
 `inf`, `-inf`, `nan`.  The text is kept as the value (abstract codec). -/
